@@ -138,8 +138,10 @@ class Check:
         print("%s %s: %s wall=%.1fs violations=%d known=%d" %
               (self.pid, self.tier, json.dumps(summ), self.elapsed(), violations, known_seen))
         sys.stdout.flush()
-        if self.broken:
-            for b in self.broken:
-                print("CHECK-BROKEN: property=%s %s" % (self.pid, b))
-            return EXIT_BROKEN
-        return EXIT_VIOLATION if violations else EXIT_OK
+        for b in self.broken:
+            print("CHECK-BROKEN: property=%s %s" % (self.pid, b))
+        # a violation that was replayed and reproduced stands, whatever else went wrong in the same run (a second
+        # finding that did not reproduce, a configuration that could not be built): the run is then both
+        if violations:
+            return EXIT_VIOLATION
+        return EXIT_BROKEN if self.broken else EXIT_OK
